@@ -19,7 +19,7 @@ from ..seams.simaddr import SimAddresses
 
 QUERIES = ["symmetric_difference", "false_positives_and_negatives", "weighted_robinson_foulds_distance", "euclidean_distance",
            "find_missing_bipartitions", "Tree.symmetric_difference", "unweighted_robinson_foulds_distance"]
-EDITS = ["rotate", "reseed", "collapse", "resolve", "spr", "set_length", "clear_length", "scale", "encode", "copy", "nni", "nudge_length", "tiny_length"]
+EDITS = ["rotate", "reseed", "collapse", "resolve", "spr", "set_length", "clear_length", "scale", "encode", "copy", "nni", "nudge_length", "tiny_length", "root_length"]
 
 
 def _rel(a, b, tol=1e-9):
@@ -190,6 +190,10 @@ class C04(Machine):
             else:
                 e.length = [1e-6, 5e-6, 1e-8][k2 % 3]
             return True
+        if kind == "root_length":
+            # the seed edge may carry a length too (e.g. a Newick string ending in "):0.5;")
+            nodes[0]._edge.length = [None, 0.5, 2.0, None][k % 4]
+            return True
         if kind == "clear_length":
             cands = [nd for nd in nodes if nd._parent_node is not None]
             cands[k % len(cands)]._edge.length = None
@@ -210,8 +214,8 @@ class C04(Machine):
     # ------------------------------------------------------------------
     def _reference(self, x, y):
         rooted = bool(self.rooted)
-        sx, px = rawtree.split_lengths(x, rooted=rooted)
-        sy, py = rawtree.split_lengths(y, rooted=rooted)
+        sx, px = rawtree.split_lengths(x, rooted=rooted, include_root_edge=True)
+        sy, py = rawtree.split_lengths(y, rooted=rooted, include_root_edge=True)
         only_x = set(sx) - set(sy)
         only_y = set(sy) - set(sx)
         l1 = 0.0
@@ -372,6 +376,7 @@ def _redraw(tree, ns, rooted):
     clone.is_rooted = tree.is_rooted
     mp = {id(nodes[0]): clone.seed_node}
     clone.seed_node.taxon = nodes[0].taxon
+    clone.seed_node.edge.length = nodes[0]._edge.length
     for nd in nodes[1:]:
         c = mp[id(nd._parent_node)].new_child()
         c.taxon = nd.taxon
